@@ -266,6 +266,15 @@ def _pn_group(N, cdiff):
             dotp = Rf[i][0] * tau[1, 0] + Rf[i][1] * tau[1, 1] + Rf[i][2] * tau[1, 2]
             want_s = want_s + (x[i + 1] * x[i + 1] - x[i] * x[i]) * dotp
         E.prove('stress.full.post', se * 2 == -want_s)
+        # central-difference form: - sum over interior points of x_i dx rho_i . tau[1]
+        pn._SDVPN__cdiffstress = True
+        sec = pn.stress_energy()
+        Rc = _rho(x, d, True, N)
+        want_c = realconst(0)
+        for i in range(N - 2):
+            want_c = want_c + x[i + 1] * dx * (Rc[i][0] * tau[1, 0] + Rc[i][1] * tau[1, 1] + Rc[i][2] * tau[1, 2])
+        E.prove('stress.full.central_differences.post', sec == -want_c)
+        pn._SDVPN__cdiffstress = False
         pn._SDVPN__fullstress = False
         se2 = pn.stress_energy()
         want_s2 = realconst(0)
@@ -441,6 +450,22 @@ def gamma_family(tier, seed):
                 msgs.append('the applied stress stored in the model changed: %r' % pn.tau.tolist())
             if msgs:
                 fails.append({'obligation': 'pn.solve', 'key': key, 'input': key, 'detail': '; '.join(msgs[:3])})
+        # every combination of the documented finite-difference / stress-form options must evaluate, and total = sum of terms
+        x, dis = am.defect.pn_arctan_disregistry(xmax=10 * a, xnum=21, burgers=b, halfwidth=1.0 * a)
+        shear = np.array([[0, 0.02, 0], [0.02, 0, 0], [0, 0, 0]])
+        for fs, ce, cs, ct in itertools.product([True, False], repeat=4):
+            evals += 1
+            key = 'options fullstress=%s,cdiffelastic=%s,cdiffsurface=%s,cdiffstress=%s' % (fs, ce, cs, ct)
+            try:
+                pn = am.defect.SDVPN(volterra=volterra, gamma=gamma, tau=shear, alpha=[0.1, 0.05], beta=np.eye(3) * 0.2, fullstress=fs, cdiffelastic=ce, cdiffsurface=cs, cdiffstress=ct)
+                pn.x = x
+                pn.disregistry = dis
+                tot = pn.total_energy()
+                parts = pn.misfit_energy() + pn.elastic_energy() + pn.longrange_energy() + pn.stress_energy() + pn.nonlocal_energy() + pn.surface_energy()
+                if not np.isclose(tot, parts, rtol=1e-10):
+                    fails.append({'obligation': 'pn.options', 'key': key, 'input': key, 'detail': 'total %r is not the sum of the terms %r' % (tot, parts)})
+            except Exception as e:
+                fails.append({'obligation': 'pn.options', 'key': 'fullstress=True,cdiffstress=True' if (fs and ct) else key, 'input': key, 'detail': 'total_energy raised %s: %s' % (type(e).__name__, e)})
         # classical half-width for the sinusoidal misfit law gamma0 sin^2(pi delta/b):  w = K_e b^2 / (4 pi^2 gamma0)  (balance of the PN equation for the arctangent profile);
         # narrow core (w = b), domain of 120 half-widths, grid spacing 0.08 b; stated tolerance: minimum within 15 % of w
         evals += 1
